@@ -265,6 +265,7 @@ class RefTraj:
         self.vc = np.asarray(q["vc"], dtype=float).reshape(-1) if d["vc"] else None
         self.pcq = P.pc_table(d, "pcq").reshape(-1) if d["pc"] == "both" else None
         self.vcq = np.asarray(q["vcq"], dtype=float).reshape(-1) if d["vc"] == "both" else None
+        self.vc2 = np.asarray(q["vc2"], dtype=float).reshape(-1) if d["vc"] == "two" else None
         self.nu = P.nu_of(d)
         self.U = np.asarray(q["U"], dtype=float).reshape(self.nu, N, order="F") if self.nu else np.zeros((0, N))
         self.nx = P.nx_of(d)
@@ -295,6 +296,8 @@ class RefTraj:
             s["pcq"] = float(self.pcq[node if node is not None else kk])
         if self.vcq is not None:
             s["vcq"] = float(self.vcq[node if node is not None else kk])
+        if getattr(self, "vc2", None) is not None:
+            s["vc2"] = float(self.vc2[kk])
         s["DT_control"] = self.tc[kk + 1] - self.tc[kk]
         s["DT"] = s["DT_control"] / self.M
         return s
